@@ -318,7 +318,7 @@ theorem cycleOf_closed {order : List Nat} (h : ClosedC P R order) :
   rw [this]
   exact ⟨hc, hr⟩
 
-variable (hP : ∀ s k, (predsFn s k).2 = P k) (hI : ∀ s k, I s → I (predsFn s k).1)
+variable (hP : ∀ s k, I s → (predsFn s k).2 = P k) (hI : ∀ s k, I s → I (predsFn s k).1)
   (hR : ∀ x, R x → ∀ p ∈ P x, R p) (hRn : ∀ x, R x → x < n)
 include hP hI hR hRn
 
@@ -387,7 +387,7 @@ theorem dfs_spec : ∀ fuel node (st : TS σ) S, TInv P R I st S → R node → 
         (fun p st2 hp hinv2 hk2 =>
           ih p st2 (node :: S) hinv2 (hR node hRnode p hp) hstack_nd hstack_path hstack_R
             (fun a ha => by cases ha; exact hp) (by omega))
-        (predsFn st.ext node).2 st1 (by rw [hP]; exact fun p hp => hp) hinv1 (Nat.le_refl _)
+        (predsFn st.ext node).2 st1 (by rw [hP _ _ hinv.ext]; exact fun p hp => hp) hinv1 (Nat.le_refl _)
       generalize hout : dfsLoop (dfs predsFn fuel) node (predsFn st.ext node).2
         { marked := setMark st.marked node false, order := st.order, ext := (predsFn st.ext node).1 } = out
         at hloop
@@ -424,7 +424,7 @@ theorem dfs_spec : ∀ fuel node (st : TS σ) S, TInv P R I st S → R node → 
           apply Resp.snoc hinv'.resp
           intro p hp
           apply hall p
-          rw [hP]; exact hp
+          rw [hP _ _ hinv.ext]; exact hp
         · intro y hy
           rcases List.mem_append.1 hy with h | h
           · exact hinv'.inR y h
